@@ -1302,6 +1302,213 @@ theorem shrinks_branches (hG : GClass G) (κ : Nat → Bool) (st : FStore Rat) (
       have := hg p; rw [hx] at this; exact hG.int _ _ this
     exact ⟨shrinks_branchL_i hG κ p z hp, shrinks_branchR_i hG κ p z hp⟩
 
+/-! ### step relations: every propagator is a composition of elementary bound updates
+
+`StepRel κ R`: the relation `R` on contexts is reflexive, transitive and holds for a float bound on
+any variable and for an integer bound on an integer variable (`κ b = false`).  Then `R` relates
+input and output of every `FloatLin*` propagator (reified ones: the reification variable must be an
+integer variable) and of the branching constraints.  Instances: `USh G κ` (good stores stay good and
+only shrink) and, in Lemmas/FloatTermination.lean, its strict refinement `UG κ`. -/
+
+structure StepRel (κ : Nat → Bool) (R : FCtx Rat → FCtx Rat → Prop) : Prop where
+  refl : ∀ c, R c c
+  trans : ∀ {a b c}, R a b → R b c → R a c
+  maxF : ∀ x m c c' r, FCtx.trySetMax c x (.f m) = some (c', r) → R c c'
+  minF : ∀ x m c c' r, FCtx.trySetMin c x (.f m) = some (c', r) → R c c'
+  maxI : ∀ b, κ b = false → ∀ k c c' r, FCtx.trySetMax c b (.i k) = some (c', r) → R c c'
+  minI : ∀ b, κ b = false → ∀ k c c' r, FCtx.trySetMin c b (.i k) = some (c', r) → R c c'
+
+/-- `R` relates input and output of every successful run of the propagator -/
+def PruneRel (R : FCtx Rat → FCtx Rat → Prop) (k : FPK Rat) : Prop := ∀ c c', k.prune c = some c' → R c c'
+
+theorem ushRel (hG : GClass G) (κ : Nat → Bool) : StepRel κ (USh G κ) where
+  refl := USh.refl κ
+  trans := USh.trans
+  maxF := fun x m c c' r h => FCtx.trySetMax_f_ush hG κ c c' x m r h
+  minF := fun x m c c' r h => FCtx.trySetMin_f_ush hG κ c c' x m r h
+  maxI := fun b hb k c c' r h hg => by
+    obtain ⟨d, hd⟩ := goodG_int hG hg hb
+    simp only [FCtx.trySetMax, hd] at h
+    exact FCtx.intSetMax_ush hG κ c c' b d k r hd h hg
+  minI := fun b hb k c c' r h hg => by
+    obtain ⟨d, hd⟩ := goodG_int hG hg hb
+    simp only [FCtx.trySetMin, hd] at h
+    exact FCtx.intSetMin_ush hG κ c c' b d k r hd h hg
+
+section StepRelLemmas
+variable {κ : Nat → Bool} {R : FCtx Rat → FCtx Rat → Prop}
+
+theorem StepRel.of_eq (hR : StepRel κ R) {c c' : FCtx Rat} (h : c' = c) : R c c' := by subst h; exact hR.refl _
+
+namespace FPK
+
+theorem setMax_f_rel (hR : StepRel κ R) (x : Nat) (m : Rat) (c c' : FCtx Rat) (h : setMax x (.f m) c = some c') : R c c' := by
+  simp only [setMax, Option.map_eq_some_iff] at h
+  obtain ⟨⟨c1, r⟩, h1, rfl⟩ := h
+  exact hR.maxF x m c c1 r h1
+
+theorem setMin_f_rel (hR : StepRel κ R) (x : Nat) (m : Rat) (c c' : FCtx Rat) (h : setMin x (.f m) c = some c') : R c c' := by
+  simp only [setMin, Option.map_eq_some_iff] at h
+  obtain ⟨⟨c1, r⟩, h1, rfl⟩ := h
+  exact hR.minF x m c c1 r h1
+
+theorem forIdx_rel' {β : Type} (hR : StepRel κ R) (f : Nat → β → FCtx Rat → Option (FCtx Rat))
+    (hf : ∀ k b c c', f k b c = some c' → R c c') :
+    ∀ (l : List β) (k : Nat) (c c' : FCtx Rat), forIdx f k l c = some c' → R c c' := by
+  intro l
+  induction l with
+  | nil => intro k c c' h; simp [forIdx] at h; exact hR.of_eq h.symm
+  | cons b bs ih =>
+    intro k c c' h
+    simp only [forIdx] at h
+    split at h; · simp at h
+    rename_i c1 h1
+    exact hR.trans (hf k b c c1 h1) (ih (k + 1) c1 c' h)
+
+theorem linLeStep_rel' (hR : StepRel κ R) (cs : List Rat) (xs : List Nat) (cst : Rat) (k : Nat) (b : Rat × Nat) (c c' : FCtx Rat)
+    (h : linLeStep cs xs cst k b c = some c') : R c c' := by
+  simp only [linLeStep] at h
+  repeat' (split at h)
+  all_goals first
+    | exact setMax_f_rel hR _ _ c c' h
+    | exact setMin_f_rel hR _ _ c c' h
+    | (cases h; exact hR.refl _)
+
+theorem linLeHelperStep_rel' (hR : StepRel κ R) (cs : List Rat) (xs : List Nat) (cst : Rat) (k : Nat) (b : Rat × Nat)
+    (c c' : FCtx Rat) (h : linLeHelperStep cs xs cst k b c = some c') : R c c' := by
+  simp only [linLeHelperStep] at h
+  split at h; · simp at h; exact hR.of_eq h.symm
+  split at h; · simp at h; exact hR.of_eq h.symm
+  split at h
+  · exact setMax_f_rel hR _ _ c c' h
+  · exact setMin_f_rel hR _ _ c c' h
+
+theorem linEqStep_rel' (hR : StepRel κ R) (helper : Bool) (cs : List Rat) (xs : List Nat) (cst : Rat) (k : Nat) (b : Rat × Nat)
+    (c c' : FCtx Rat) (h : linEqStep helper cs xs cst k b c = some c') : R c c' := by
+  simp only [linEqStep] at h
+  split at h; · simp at h; exact hR.of_eq h.symm
+  split at h; · simp at h; exact hR.of_eq h.symm
+  split at h; · simp at h; exact hR.of_eq h.symm
+  split at h; · simp at h
+  rename_i c1 h1
+  exact hR.trans (setMin_f_rel hR _ _ c c1 h1) (setMax_f_rel hR _ _ c1 c' h)
+
+/-- `exclude_value` with a float value -/
+theorem excludeValue_f_rel (hR : StepRel κ R) (x : Nat) (t : Rat) (c c' : FCtx Rat)
+    (h : excludeValue x (.f t) c = some c') : R c c' := by
+  simp only [excludeValue] at h
+  split at h; · simp at h; exact hR.of_eq h.symm
+  split at h; · simp at h
+  split at h; · exact setMin_f_rel hR _ _ c c' h
+  split at h; · exact setMax_f_rel hR _ _ c c' h
+  simp at h; exact hR.of_eq h.symm
+
+theorem linNePrune_rel' (hR : StepRel κ R) (cs : List Rat) (xs : List Nat) (cst : Rat) (c c' : FCtx Rat)
+    (h : linNePrune cs xs cst c = some c') : R c c' := by
+  simp only [linNePrune] at h
+  split at h
+  · simp at h; exact hR.of_eq h.symm
+  · split at h <;> simp at h; exact hR.of_eq h.symm
+  · split at h
+    · split at h
+      · split at h <;> simp at h; exact hR.of_eq h.symm
+      · exact excludeValue_f_rel hR _ _ c c' h
+    · simp at h; exact hR.of_eq h.symm
+
+theorem fixReif_rel' (hR : StepRel κ R) (b : Nat) (hb : κ b = false) (k : Int) (c c' : FCtx Rat)
+    (h : fixReif b k c = some c') : R c c' := by
+  simp only [fixReif] at h
+  split at h; · simp at h
+  rename_i c1 h1
+  simp only [setMin, Option.map_eq_some_iff] at h1
+  obtain ⟨⟨c1', r1⟩, h1', rfl⟩ := h1
+  simp only [setMax, Option.map_eq_some_iff] at h
+  obtain ⟨⟨c2', r2⟩, h2', rfl⟩ := h
+  exact hR.trans (hR.minI b hb k c c1' r1 h1') (hR.maxI b hb k c1' c2' r2 h2')
+
+end FPK
+
+theorem pruneRel_linLe (hR : StepRel κ R) (cs : List Rat) (xs : List Nat) (cst : Rat) : PruneRel R (.linLe cs xs cst) :=
+  fun c c' h => FPK.forIdx_rel' hR _ (FPK.linLeStep_rel' hR cs xs cst) _ 0 c c' h
+
+theorem pruneRel_linEq (hR : StepRel κ R) (cs : List Rat) (xs : List Nat) (cst : Rat) : PruneRel R (.linEq cs xs cst) :=
+  fun c c' h => FPK.forIdx_rel' hR _ (FPK.linEqStep_rel' hR false cs xs cst) _ 0 c c' h
+
+theorem pruneRel_linNe (hR : StepRel κ R) (cs : List Rat) (xs : List Nat) (cst : Rat) : PruneRel R (.linNe cs xs cst) :=
+  fun c c' h => FPK.linNePrune_rel' hR cs xs cst c c' h
+
+/-- reified rows: the reification variable must be an integer variable -/
+theorem pruneRel_linEqReif (hR : StepRel κ R) (cs : List Rat) (xs : List Nat) (cst : Rat) (b : Nat) (hb : κ b = false) :
+    PruneRel R (.linEqReif cs xs cst b) := by
+  intro c c' h
+  simp only [FPK.prune] at h
+  split at h; · exact FPK.forIdx_rel' hR _ (FPK.linEqStep_rel' hR true cs xs cst) _ 0 c c' h
+  split at h
+  · split at h
+    · split at h <;> simp at h; exact hR.of_eq h.symm
+    · simp at h; exact hR.of_eq h.symm
+  · split at h
+    · split at h <;> exact FPK.fixReif_rel' hR b hb _ c c' h
+    · simp at h; exact hR.of_eq h.symm
+
+theorem pruneRel_linLeReif (hR : StepRel κ R) (cs : List Rat) (xs : List Nat) (cst : Rat) (b : Nat) (hb : κ b = false) :
+    PruneRel R (.linLeReif cs xs cst b) := by
+  intro c c' h
+  simp only [FPK.prune] at h
+  split at h; · exact FPK.forIdx_rel' hR _ (FPK.linLeHelperStep_rel' hR cs xs cst) _ 0 c c' h
+  split at h
+  · split at h
+    · split at h <;> simp at h; exact hR.of_eq h.symm
+    · simp at h; exact hR.of_eq h.symm
+  · split at h; · exact FPK.fixReif_rel' hR b hb _ c c' h
+    split at h; · exact FPK.fixReif_rel' hR b hb _ c c' h
+    simp at h; exact hR.of_eq h.symm
+
+theorem pruneRel_linNeReif (hR : StepRel κ R) (cs : List Rat) (xs : List Nat) (cst : Rat) (b : Nat) (hb : κ b = false) :
+    PruneRel R (.linNeReif cs xs cst b) := by
+  intro c c' h
+  simp only [FPK.prune] at h
+  split at h; · exact FPK.linNePrune_rel' hR cs xs cst c c' h
+  split at h; · exact FPK.forIdx_rel' hR _ (FPK.linEqStep_rel' hR true cs xs cst) _ 0 c c' h
+  split at h
+  · split at h <;> exact FPK.fixReif_rel' hR b hb _ c c' h
+  · simp at h; exact hR.of_eq h.symm
+
+/-- both branch constraints of a split of variable `p`, given the kind of `mid` matches `κ p` -/
+theorem pruneRel_branches (hR : StepRel κ R) (p : Nat) (mid : FVal Rat)
+    (hk : (∃ r, mid = .f r) ∨ ((∃ z, mid = .i z) ∧ κ p = false)) :
+    PruneRel R (branchL p mid) ∧ PruneRel R (branchR p mid) := by
+  rcases hk with ⟨r, rfl⟩ | ⟨⟨z, rfl⟩, hp⟩
+  · constructor
+    · intro c c' h
+      obtain ⟨r', hr⟩ := branchL_prune p _ c c' h
+      exact hR.maxF p r c c' r' hr
+    · intro c c' h
+      obtain ⟨r', hr⟩ := branchR_prune p _ c c' h
+      rw [FView.minRaw_next_const_f] at hr
+      exact hR.minF p r c c' r' hr
+  · constructor
+    · intro c c' h
+      obtain ⟨r', hr⟩ := branchL_prune p _ c c' h
+      exact hR.maxI p hp z c c' r' hr
+    · intro c c' h
+      obtain ⟨r', hr⟩ := branchR_prune p _ c c' h
+      rw [FView.minRaw_next_const_i] at hr
+      exact hR.minI p hp (z + 1) c c' r' hr
+
+end StepRelLemmas
+
+/-- `FloatLinNe` shrinks (any class of good stores) -/
+theorem shrinksG_linNe (hG : GClass G) (κ : Nat → Bool) (cs : List Rat) (xs : List Nat) (cst : Rat) : ShrinksG G κ (.linNe cs xs cst) :=
+  pruneRel_linNe (ushRel hG κ) cs xs cst
+/-- the reified float rows shrink when the reification variable is an integer variable -/
+theorem shrinksG_linEqReif (hG : GClass G) (κ : Nat → Bool) (cs : List Rat) (xs : List Nat) (cst : Rat) (b : Nat) (hb : κ b = false) :
+    ShrinksG G κ (.linEqReif cs xs cst b) := pruneRel_linEqReif (ushRel hG κ) cs xs cst b hb
+theorem shrinksG_linLeReif (hG : GClass G) (κ : Nat → Bool) (cs : List Rat) (xs : List Nat) (cst : Rat) (b : Nat) (hb : κ b = false) :
+    ShrinksG G κ (.linLeReif cs xs cst b) := pruneRel_linLeReif (ushRel hG κ) cs xs cst b hb
+theorem shrinksG_linNeReif (hG : GClass G) (κ : Nat → Bool) (cs : List Rat) (xs : List Nat) (cst : Rat) (b : Nat) (hb : κ b = false) :
+    ShrinksG G κ (.linNeReif cs xs cst b) := pruneRel_linNeReif (ushRel hG κ) cs xs cst b hb
+
 /-! ### the leaf reached by the search: a good store inside the root store at which every
 propagator of the path is stable -/
 
@@ -1450,6 +1657,14 @@ theorem shrinks_linLe (κ : Nat → Bool) (cs : List Rat) (xs : List Nat) (cst :
   shrinksG_linLe vgood_class κ cs xs cst
 theorem shrinks_linEq (κ : Nat → Bool) (cs : List Rat) (xs : List Nat) (cst : Rat) : Shrinks κ (.linEq cs xs cst) :=
   shrinksG_linEq vgood_class κ cs xs cst
+theorem shrinks_linNe (κ : Nat → Bool) (cs : List Rat) (xs : List Nat) (cst : Rat) : Shrinks κ (.linNe cs xs cst) :=
+  shrinksG_linNe vgood_class κ cs xs cst
+theorem shrinks_linEqReif (κ : Nat → Bool) (cs : List Rat) (xs : List Nat) (cst : Rat) (b : Nat) (hb : κ b = false) :
+    Shrinks κ (.linEqReif cs xs cst b) := shrinksG_linEqReif vgood_class κ cs xs cst b hb
+theorem shrinks_linLeReif (κ : Nat → Bool) (cs : List Rat) (xs : List Nat) (cst : Rat) (b : Nat) (hb : κ b = false) :
+    Shrinks κ (.linLeReif cs xs cst b) := shrinksG_linLeReif vgood_class κ cs xs cst b hb
+theorem shrinks_linNeReif (κ : Nat → Bool) (cs : List Rat) (xs : List Nat) (cst : Rat) (b : Nat) (hb : κ b = false) :
+    Shrinks κ (.linNeReif cs xs cst b) := shrinksG_linNeReif vgood_class κ cs xs cst b hb
 
 /-- **the leaf of `fsolve`**: a valid store inside the declared one, all of the first `n` variables
 assigned, every posted propagator stable -/
